@@ -46,12 +46,12 @@ func (lens *lens[S, A]) Gett(s any) A {
 func NewReflector[S, A any](t hseq.Type[S]) Reflector[A] {
 	ft := t.Type
 	fv := reflect.TypeOf(new(A)).Elem()
+	cat := reflect.TypeOf(new(S)).Elem()
 
-	if ft.String() == fv.String() && ft.AssignableTo(fv) {
+	if ft == fv && focusable(cat, t.RootOffs+t.Offset, fv) {
 		return &lens[S, A]{t}
 	}
 
-	cat := reflect.TypeOf(new(S)).Elem()
 	panic(fmt.Errorf("invalid type: Reflector[%s, %s] not compatible with %s", cat.Name(), ft.Name(), fv.Name()))
 }
 
